@@ -52,6 +52,9 @@ var rePhiIdx = regexp.MustCompile(`\(phi:t\d+@[A-Za-z0-9_$]+\+const:1\)|phi:t\d+
 
 var reGen = regexp.MustCompile(`~\d+`)
 
+// reInst matches the instance marker of values of a helper walked in place more than once.
+var reInst = regexp.MustCompile(`\^\d+`)
+
 func gen(s string) string { return rePhiIdx.ReplaceAllString(reGen.ReplaceAllString(s, ""), "i") }
 
 func eventsOf(lp *LPath, kind, name string) []Event {
@@ -840,6 +843,31 @@ func runErr3(c *Ctx) {
 					if t != nil && t.V == v && (t.NonNil == s.Block() || t.NonNil.Dominates(s.Block())) && len(t.NonNil.Preds) == 1 {
 						good, why = true, "stored on the non-nil edge of its own test"
 					}
+				}
+			}
+			if !good {
+				// `cell = f(x); return cell != nil`: the callback asks for the scan to stop exactly when what it stored
+				// is an error, so no later call can overwrite one
+				rets := returnsOf(fn)
+				all := len(rets) > 0
+				for _, r := range rets {
+					ok := false
+					if len(r.Results) == 1 && (s.Block() == r.Block() || s.Block().Dominates(r.Block())) {
+						if bo, isBO := r.Results[0].(*ssa.BinOp); isBO && bo.Op == token.NEQ && isNilConst(bo.Y) {
+							if bo.X == v {
+								ok = true
+							}
+							if ld, isLd := bo.X.(*ssa.UnOp); isLd && ld.Op == token.MUL && ld.X == ssa.Value(fv) {
+								ok = true
+							}
+						}
+					}
+					if !ok {
+						all = false
+					}
+				}
+				if all {
+					good, why = true, "possibly nil, but the callback stops the scan exactly when it is not (`return cell != nil`)"
 				}
 			}
 			if good {
